@@ -55,6 +55,36 @@ func (w *World) newInst(genesis []int, kind string, cache int, dir string) (*hgI
 	return in, nil
 }
 
+// feedFaulty inserts the events one by one (consensus after each), with frame
+// writes failing for the events in [from, to) (decided rounds pile up in the
+// pending queue) and one more single failure of `method` (its after-th call)
+// armed right after the outage.  Errors of the consensus passes are what the
+// node would log; feeding goes on.
+func (in *hgInst) feedFaulty(order []*EvInfo, fs *FaultStore, from, to int, method string, after int) (passErrors int, err error) {
+	defer func() {
+		if r := recover(); r != nil {
+			err = fmt.Errorf("panic: %v", r)
+		}
+	}()
+	for i, inf := range order {
+		switch {
+		case i >= from && i < to:
+			fs.ArmBurst("SetFrame")
+		case i == to:
+			fs.Disarm()
+			fs.Arm(method, after)
+		}
+		if e := in.h.InsertEventAndRunConsensus(freshEvent(inf.Ev), true); e != nil {
+			if _, gerr := in.st.GetEvent(inf.Hash); gerr != nil {
+				return passErrors, fmt.Errorf("insert %s: %v", inf.ID, e)
+			}
+			passErrors++
+		}
+	}
+	fs.Disarm()
+	return passErrors, nil
+}
+
 func (in *hgInst) close() {
 	in.st.Close()
 	if in.dir != "" {
@@ -368,6 +398,42 @@ func runOrders(o *Opts) *Summary {
 			ord := w.randomTopo(all, "")
 			cut := 1 + w.rng.Intn(len(ord))
 			vs = append(vs, variant{"subset", "inmem", 100000, 1, ord[:cut], true})
+		}
+		// store-fault variants: same DAG, reference order, per-event consensus
+		nfaulty := 6
+		if o.Arg == "thorough" {
+			nfaulty = 30
+		}
+		for k := 0; k < nfaulty && len(ref) > 30; k++ {
+			in, err := w.newInst(gen, "inmem", 100000, "")
+			if err != nil {
+				panic(err)
+			}
+			fs := NewFaultStore(in.st)
+			in.st = fs
+			in.h.Store = fs
+			from := 5 + w.rng.Intn(len(ref)/2)
+			to := from + 10 + w.rng.Intn(len(ref)/3+1)
+			if to > len(ref)-2 {
+				to = len(ref) - 2
+			}
+			method := []string{"SetFrame", "SetFrame", "SetBlock", "AddConsensusEvent"}[w.rng.Intn(4)]
+			after := 1 + w.rng.Intn(3)
+			perr, ferr := in.feedFaulty(ref, fs, from, to, method, after)
+			out := in.output(ref)
+			if ferr != nil {
+				out["err"] = ferr.Error()
+				unsupported++
+			}
+			plan := fmt.Sprintf("SetFrame-outage[%d,%d)+%s#%d", from, to, method, after)
+			x := map[string]interface{}{"kind": "faulty", "store": "inmem+faults", "cache": 100000, "batch": 1, "subset": false,
+				"nins": len(ref), "order": "ref", "faulty": true, "plan": plan, "pass_errors": perr, "fired": len(fs.TakeFired())}
+			w.Emit(1, "Instance", x, out)
+			if k == 0 && len(s.Samples) < 6 {
+				s.Samples = append(s.Samples, map[string]interface{}{"trace": t + 1, "variant": x, "blocks": len(in.blocks)})
+			}
+			in.close()
+			instances++
 		}
 		for vi, v := range vs {
 			dir := ""
